@@ -9,7 +9,9 @@ PRE = ("class K(def v: Int)\n    def m(self, z: Int) -> Int => z + self.v\n"
 BOOL_SHAPES = ["b", "a > 2", "a > 2 and b", "a > 2 or b", "not b", "not (a > 2 and b)", "if b then a > 2 else a >= 2", "(a > 2)", "a = 2", "a != 2",
                "gb(b)", "gb(a > 2) or b", "a in xs", "(if b then b else not b) and b", "a > 2 and (b or a < 9)", "k isa K"]
 INT_SHAPES = ["a", "7", "a + 1", "-a", "a * (c + 1)", "a - (c - 1)", "if b then 1 else 2", "g(a)", "g(if b then 1 else 2)", "k.v", "k.m(a)", "xs[0]", "(a)",
-              "a ^ 2", "-(a + 1)", "(if b then 1 else 2) + 1", "a // 2", "a mod 2", "2E2 // 100", "g(g(a))"]
+              "a ^ 2", "-(a + 1)", "(if b then 1 else 2) + 1", "a // 2", "a mod 2", "2E2 // 100", "g(g(a))",
+              # every spelling of a number the lexer accepts
+              "007", "00", "0", "02E03 // 1000", "1E0", "3E // 1"]
 BOOL_CONTEXTS = ["def r := [y | y in xs, {E}]", "def r := [y | y in xs, y > 0, {E}]", "def r := [y | y in xs, {E}, y > 0]", "def r := {{y | y in xs, {E}}}",
                  "def r := {{y => y + 1 | y in xs, {E}}}", "if {E} then print(1)", "if {E} then print(1) else print(2)", "def r := if {E} then 1 else 2",
                  "while {E} do\n    b := False\n    a := 0", "def r: Bool := {E}", "def r := not ({E})", "def r := gb({E})", "print({E})", "def r := \"v={{{E}}}\"",
@@ -23,7 +25,7 @@ INT_CONTEXTS = ["def r := [{E}, {E}]", "def r := ({E}, {E})", "def r := {{{E}, 1
 
 
 # inputs of repaired defects (known_findings.json `fixed:`): a regression is reported again
-REPAIRED = ["print(\"he\n wold\")\n", "def a := 2\nprint(\"x\n{a}y\")\n", "def b := True\ndef xs := [1, 2]\ndef r := {y => y + 1 | y in xs, if b then y > 1 else y >= 1}\n",
+REPAIRED = ["print(007)\nprint(02.5)\nprint(02E03)\nprint(00)\n", "print(\"he\n wold\")\n", "def a := 2\nprint(\"x\n{a}y\")\n", "def b := True\ndef xs := [1, 2]\ndef r := {y => y + 1 | y in xs, if b then y > 1 else y >= 1}\n",
             "def b := True\ndef d := {1 => if b then 1 else 2}\n", "def b := True\ndef xs := [1, 2]\ndef r := {(if b then 1 else 2) => (if b then 5 else 6) | y in xs}\n"]
 
 
